@@ -281,7 +281,7 @@ func firstN(tr []verifrt.SwitchRec, n int) []verifrt.SwitchRec {
 func init() {
 	register(&Check{
 		ID: "C06", Level: "exploration", NeedsRace: true, Isolated: true, Run: c06Run,
-		Runs:       [2]int{2500, 60000},
+		Runs:       [2]int{2500, 200000},
 		MaxSeconds: [2]int{120, 1700},
 		Rule: "one run = 2-8 simulated tasks under the seeded scheduler (random walk with run length 1-32, PCT with 1-3 priority change points, round-robin): 1-4 transaction tasks running 1-3 generated transactions each on one shared WAF (bodies spilling to the simulated disk, uploads, ctl:* incl. per-transaction target removal on rules with configured exclusions, captures, macros, shared serial audit writer), " +
 			"0-2 builder tasks constructing and closing WAFs that share patterns / data set names with it (pattern cache, singleflight, transformation-id table), 0-2 churn tasks creating and closing transactions; pool policy LIFO / FIFO / random / drop. Yield points: every sync / atomic operation, every statement of memoize, singleflight, pool, audit writers, RandomString, transformationID, newTransaction, Close, BodyBuffer, every rule iteration and API entry. " +
